@@ -39,7 +39,7 @@ def _exc(rec):
 
 
 def site_match(rec, clause):
-    return {"matcher": rec["matcher"], "mm": rec["mm"], "direction": "decreasing" if rec["mm"] in ("ASSD", "RVD") else "increasing",
+    return {"matcher": rec["matcher"], "mm": rec["mm"], "layout": rec["meta"].get("layout", "C"), "direction": "decreasing" if rec["mm"] in ("ASSD", "RVD") else "increasing",
             "dtype": rec["meta"].get("dtype"), "out": rec["out"], "exc": _exc(rec), "gen": rec["meta"].get("gen", "")}
 
 
@@ -136,7 +136,9 @@ def gen_match_records(rng, tier, cfgs, n_random, exhaustive_shapes, with_chain=T
             # a threshold exactly at one of the candidate scores
             thr = _score_threshold(rng, pred, ref, mm) or thr
         chain = _stricter(mm, thr) if with_chain and kind != "merge" and thr in (gen.ASSD_THRESHOLDS + gen.THRESHOLDS) else []
-        recs.append(rec_match(pred, ref, kind, mm, tuple(thr), chain=chain, meta={"gen": "random"}))
+        from .rec_pipeline import LAYOUTS
+        layout = rng.choice(LAYOUTS) if rng.random() < 0.35 else "C"
+        recs.append(rec_match(pred, ref, kind, mm, tuple(thr), chain=chain, meta={"gen": "random"}, layout=layout))
     return recs
 
 
@@ -397,6 +399,16 @@ def gen_eval_records(rng, n_random, exhaustive_shapes, cfg_fn, max_vox=48, pair_
                     rnew = rng.randint(200, 250)
                     ref = np.where(ref == r0, rnew, ref)
                     pred = np.where(pred == p0, 256 - rnew, np.where(pred == 256 - rnew, p0, pred))
+        if g == "random" and rng.random() < 0.12 and cfg["input"] != "SEM":
+            # several identical instance pairs: tied scores (std of equal values, ties in the matcher)
+            k = rng.randint(3, 5)
+            w = rng.randint(2, 4)
+            p1 = np.zeros(w + 2, dtype=np.int64); r1 = np.zeros(w + 2, dtype=np.int64)
+            r1[0:w] = 1
+            p1[rng.randint(0, 1):w + rng.randint(0, 1)] = 1
+            pred = np.concatenate([p1 * (i + 1) for i in range(k)])
+            ref = np.concatenate([r1 * (i + 1) for i in range(k)])
+            g = "random-identical-instances"
         dtype = np.uint8
         if g == "random" and rng.random() < 0.3:
             # wider dtypes with label values that are multiples of 256 / beyond 2^16
